@@ -525,6 +525,91 @@ func reuseHistory(seed int64) rec {
 	return r
 }
 
+// twoServiceHistory: two services of one process on one connection send a query event each. Each query
+// event has a subject of its own; a request on one of them reaches that query event's callback only
+// and is answered once.
+func twoServiceHistory(seed int64) rec {
+	res.VerifHook = nil
+	conn := rconn.New(nil)
+	type svc struct {
+		s     *res.Service
+		done  chan error
+		calls int32
+		subj  string
+	}
+	names := []string{"test", "other"}
+	svcs := make([]*svc, 2)
+	for i, n := range names {
+		v := &svc{s: res.NewService(n), done: make(chan error, 1)}
+		v.s.SetLogger(nil)
+		v.s.SetQueryEventDuration(40 * time.Millisecond)
+		v.s.Handle("q", res.GetCollection(func(r res.CollectionRequest) { r.Collection([]int{}) }))
+		served := make(chan struct{})
+		v.s.SetOnServe(func(*res.Service) { close(served) })
+		go func() { v.done <- v.s.Serve(conn) }()
+		select {
+		case <-served:
+		case <-time.After(3 * time.Second):
+			return nil
+		}
+		svcs[i] = v
+	}
+	defer func() {
+		for _, v := range svcs {
+			v.s.Shutdown()
+		}
+	}()
+	// the services have sent different numbers of query events before (seed-dependent), then one each
+	for i, v := range svcs {
+		v := v
+		for k := 0; k < 1+int(seed+int64(i))%2; k++ {
+			started := make(chan struct{})
+			if v.s.With(names[i]+".q", func(r res.Resource) {
+				r.QueryEvent(func(qr res.QueryRequest) {
+					if qr != nil {
+						atomic.AddInt32(&v.calls, 1)
+					}
+				})
+				close(started)
+			}) != nil {
+				return nil
+			}
+			<-started
+		}
+		for _, m := range conn.PubsOn("event." + names[i] + ".q.query") {
+			var p struct {
+				Subject string `json:"subject"`
+			}
+			json.Unmarshal(m.Data, &p)
+			v.subj = p.Subject // the last one
+		}
+	}
+	// all subjects published so far
+	seen := map[string]int{}
+	for _, n := range names {
+		for _, m := range conn.PubsOn("event." + n + ".q.query") {
+			var p struct {
+				Subject string `json:"subject"`
+			}
+			json.Unmarshal(m.Data, &p)
+			seen[p.Subject]++
+		}
+	}
+	fresh := true
+	for _, n := range seen {
+		if n > 1 {
+			fresh = false
+		}
+	}
+	delivered, _ := conn.Deliver(svcs[0].subj, "inbox.two1", []byte(`{"query":"id=two1"}`))
+	time.Sleep(15 * time.Millisecond)
+	replies := len(conn.PubsOn("inbox.two1"))
+	own, foreign := atomic.LoadInt32(&svcs[0].calls), atomic.LoadInt32(&svcs[1].calls)
+	return rec{"judge": "fresh", "fresh": fresh && delivered == 1 && replies == 1 && own == 1 && foreign == 0, "overlap": false, "recv": []string{}, "badpayload": []bool{}, "cblog": []string{}, "replies": [][]interface{}{}, "kinds": [][]interface{}{},
+		"failed": false, "published": true, "expired": false, "exited": false,
+		"dbg": fmt.Sprintf("two services on one connection: query subjects %v, request on the first service's subject delivered to %d subscription(s), %d response(s), callback calls own=%d other service=%d", seen, delivered, replies, own, foreign)}
+}
+
 // durationHistory: the service is served, stopped, given another query event duration and served again
 // (half of the runs: served once). A query event of the current life is active for the configured
 // duration: inside it a request is answered, the callback has not been called with nil and the listener
@@ -663,6 +748,11 @@ func Run(c *core.Ctx) {
 			recs = append(recs, rr)
 		}
 	}
+	for i := 0; i < c.Pick(4, 20); i++ {
+		if rr := twoServiceHistory(c.Seed + int64(i)); rr != nil {
+			recs = append(recs, rr)
+		}
+	}
 	var bad []int
 	core.CheckRecords(c, "TraceQueryObs", "TraceQueryObs.cfg", recs, nil, func(i int, r interface{}, inv string) { bad = append(bad, i) })
 	if len(bad) > 0 {
@@ -670,8 +760,8 @@ func Run(c *core.Ctx) {
 		var recs2 []interface{}
 		var which []string
 		for _, i := range bad {
-			for _, cl := range append(clauses, "foreign", "active") {
-				if cl == "active" && fmt.Sprint(recs[i].(rec)["judge"]) != "active" {
+			for _, cl := range append(clauses, "foreign", "active", "fresh") {
+				if (cl == "active" || cl == "fresh") && fmt.Sprint(recs[i].(rec)["judge"]) != cl {
 					continue
 				}
 				// a record judged for one clause only (released / foreign) is re-judged for that clause
